@@ -147,7 +147,7 @@ package sm2
 //@   modifies nothing
 
 //@ func NewPublicKey property C13,C14
-//@   ensures err == nil ==> result0 != nil
+//@   ensures err == nil ==> result0 != nil && len(key) > 0 && key[0] == 4
 //@   fnspec newPoint: std:pointCreator
 //@   modifies nothing
 
